@@ -142,6 +142,14 @@ Theorem C11_constraint_info_invariant : forall n ss os nls cfg cfg' eqo x cons,
              (create cfg x cons).
 Proof. exact constraint_info_invariant. Qed.
 
+(* trackers: a "last" tracker without constraint tolerance retains a position that depends only on which delivered
+   results carry function values -- so the run with transforms (whose deliveries carry function values exactly where
+   those of the run without do) retains the result at the same position; Chk_C11 checks that this position is the one
+   observed in both runs and that the retained object is the delivered user-domain one *)
+Theorem C11_last_tracker_invariant : forall plain scaled,
+  map ti_fun plain = map ti_fun scaled -> tracked_last None plain = tracked_last None scaled.
+Proof. intros plain scaled H. unfold tracked_last. apply last_ok_no_tolerance. exact H. Qed.
+
 (* non-vacuity: a concrete scaled problem meets every hypothesis; the perturbed vector crosses its bounds *)
 Example C11_example :
   let u := {| u_x0 := [1 # 2; 0]; u_lb := [Fin 0; NInf]; u_ub := [Fin 1; Fin 2];
@@ -178,3 +186,4 @@ Print Assumptions C11_values_invariant.
 Print Assumptions C11_function_values_invariant.
 Print Assumptions C11_weighted_mean_homogeneous.
 Print Assumptions C11_constraint_info_invariant.
+Print Assumptions C11_last_tracker_invariant.
